@@ -2,10 +2,10 @@ package main
 
 import (
 	"fmt"
-	"strings"
 	"go/ast"
 	"go/token"
 	"go/types"
+	"strings"
 )
 
 type flow struct {
@@ -309,10 +309,10 @@ func (x *Unit) nextLoop() (int, loopSpec) {
 // modified: which env vars / heap keys / ghosts differ between base and the given back-edge states.
 type modset struct {
 	keepShape map[types.Object]bool // slice variables never assigned as a whole inside the loop
-	vars  map[types.Object]bool
-	heap  map[string]Sort
-	ghost map[string]bool
-	all   bool
+	vars      map[types.Object]bool
+	heap      map[string]Sort
+	ghost     map[string]bool
+	all       bool
 }
 
 func newModset() *modset {
